@@ -48,6 +48,11 @@ func buildHeaderRequest(ctx context.Context, protocol uint32, blocks *storage.Bl
 		}
 	}
 
+	if len(getheaders.BlockLocatorHashes) == 0 {
+		// Nothing below the tip to reference (only the genesis header is stored), so use the tip.
+		getheaders.AddBlockLocatorHash(blocks.LastHash())
+	}
+
 	return getheaders, nil
 }
 
